@@ -24,7 +24,7 @@ from ..astutil import call_name, calls, dotted, kwarg, last_name, parents, u
 from ..formula import extract, same, same_events, spec
 from ..model import AnalysisError
 from ..paths import enumerate_paths, guards_of
-from ..termflow import ADict, AList, Poly, TRUE, as_term, show, vkey
+from ..termflow import ADict, AList, Poly, TRUE, as_term, show, show_key, vkey
 from . import C20 as _io
 
 SLOT_CLASSES = ("tree.tree.Tree", "tree.tree_node.TreeNode", "tree_holder.TreeHolder", "particle.Particle")
@@ -639,6 +639,10 @@ def rule_R1(ctx):
     ev, got = _entry_of(ex, f)
     sev, want = _entry_of(sp, f)
     same(ctx, "R1", "append_to_trace appends to the trace it is handed", f, ev.recv, sev.recv, "receiver of append")
+    # every call records: an append that sits under a test (`if this iteration is not there yet`, `if the tree changed`)
+    # drops entries the thinning rule says are due
+    conds = [g for g in (getattr(ev, "full_guards", None) or ev.guards)] if len(ex.calls(".append")) == 1 else []
+    ctx.check(not conds, "R1", "append_to_trace records an entry on every call", f.where(ev.node), "the entry is appended only when %s: a due entry can be skipped (the post-burn-in entry and iteration 0 both carry iter = 0, equal trees recur)" % "; ".join(show_key(g)[:120] for g in conds[:2]), construct=f.qualname, stmt="unconditional append")
     missing = [k for k in want if k not in got]
     ctx.check(not missing, "R1", "entry has the keys iter, time, alpha, log_p_one, tree", f.where(ev.node),
               "the entry lacks %s" % missing, construct=f.qualname, stmt="entry keys")
@@ -1246,6 +1250,17 @@ def rule_R3(ctx, entry_keys, chain_dict):
     rd = _Reads(prog)
     # seeds: the name bound by the load in each reader
     readers = [prog.fn(n) for n in _io.READERS]
+    def opener_call(name, load_call, fnode, pm_):
+        """The opening call whose result `name` holds at the load: `with OPEN(...) as name`, or `name = OPEN(...)` bound
+        once (closed by hand or in a finally block)."""
+        frame_ = _io.with_binding(name, load_call, fnode, pm_)
+        if frame_ is not None and isinstance(frame_[1].context_expr, ast.Call):
+            return frame_[1].context_expr
+        binds = [n for n in ast.walk(fnode) if isinstance(n, ast.Assign) and any(isinstance(t, ast.Name) and t.id == name for t in n.targets)]
+        if len(binds) == 1 and isinstance(binds[0].value, ast.Call):
+            return binds[0].value
+        return None
+
     fams = set()
     for fi in readers:
         ls = _io.load_sites(fi.node, fi.module)
@@ -1260,9 +1275,9 @@ def rule_R3(ctx, entry_keys, chain_dict):
                 if isinstance(hst, ast.Assign) and len(hst.targets) == 1 and isinstance(hst.targets[0], ast.Name):
                     gls = _io.load_sites(g.node, g.module)
                     gpm = parents(g.node)
-                    frame = _io.with_binding(gls[0][1].id, gls[0][0], g.node, gpm) if isinstance(gls[0][1], ast.Name) else None
-                    if frame is not None and isinstance(frame[1].context_expr, ast.Call):
-                        info = _io.opener_info(frame[1].context_expr, g.module)
+                    oc_ = opener_call(gls[0][1].id, gls[0][0], g.node, gpm) if isinstance(gls[0][1], ast.Name) else (gls[0][1] if isinstance(gls[0][1], ast.Call) else None)
+                    if oc_ is not None:
+                        info = _io.opener_info(oc_, g.module)
                         if info:
                             fams.add((info[0], _io.canon(gls[0][0], g.module).replace("load", "")))
                     rd.scan(fi, {hst.targets[0].id: "RESULTS"})
@@ -1274,9 +1289,9 @@ def rule_R3(ctx, entry_keys, chain_dict):
         st = pm.get(id(ls[0][0]))
         if not (isinstance(st, ast.Assign) and isinstance(st.targets[0], ast.Name)):
             raise AnalysisError("%s: the loaded trace is not bound to a name" % fi.qualname)
-        frame = _io.with_binding(ls[0][1].id, ls[0][0], fi.node, pm) if isinstance(ls[0][1], ast.Name) else None
-        if frame is not None and isinstance(frame[1].context_expr, ast.Call):
-            info = _io.opener_info(frame[1].context_expr, fi.module)
+        oc_ = opener_call(ls[0][1].id, ls[0][0], fi.node, pm) if isinstance(ls[0][1], ast.Name) else (ls[0][1] if isinstance(ls[0][1], ast.Call) else None)
+        if oc_ is not None:
+            info = _io.opener_info(oc_, fi.module)
             if info:
                 fams.add((info[0], _io.canon(ls[0][0], fi.module).replace("load", "")))
         rd.scan(fi, {st.targets[0].id: "RESULTS"})
